@@ -138,10 +138,10 @@ func runT2(p *an.Prog, r *an.Result) {
 	if fn := p.Func("(*render.TextNode).render"); fn == nil {
 		r.Bad("(*render.TextNode).render", "not found", token.NoPos, "anchor not resolved")
 	} else {
-		ws := callsNamed(fn, "io.WriteString")
-		ok := len(ws) == 1 && strings.HasSuffix(describe(p, ws[0].Call.Args[1]), ".Source")
+		ws := plainStringWrites(p, fn)
+		ok := len(ws) == 1 && strings.HasSuffix(describe(p, ws[0].arg), ".Source")
 		if ok {
-			if _, isLoad := ws[0].Call.Args[1].(*ssa.UnOp); !isLoad {
+			if _, isLoad := ws[0].arg.(*ssa.UnOp); !isLoad {
 				ok = false
 			}
 		}
@@ -155,11 +155,11 @@ func runT2(p *an.Prog, r *an.Result) {
 	if fn := p.Func("(*render.RawNode).render"); fn == nil {
 		r.Bad("(*render.RawNode).render", "not found", token.NoPos, "anchor not resolved")
 	} else {
-		ws := callsNamed(fn, "io.WriteString")
+		ws := plainStringWrites(p, fn)
 		ok := len(ws) == 1
 		if ok {
 			// element of n.slices
-			arg := ws[0].Call.Args[1]
+			arg := ws[0].arg
 			ok = false
 			if u, isLoad := arg.(*ssa.UnOp); isLoad {
 				if ia, isIA := u.X.(*ssa.IndexAddr); isIA && strings.HasSuffix(describe(p, ia.X), ".slices") && isForwardRangeIndex(ia.Index) {
@@ -281,7 +281,19 @@ func runT2(p *an.Prog, r *an.Result) {
 		an.EachCall(wf, func(ci ssa.CallInstruction) {
 			n := an.CallName(ci.Common())
 			r.Counts["writeObject callees"]++
+			strArg := -1
 			if callee := ci.Common().StaticCallee(); callee != nil && unit[callee] {
+				if k := plainWriteHelper(callee); k >= 0 {
+					// a helper that only hands its string to io.WriteString: its call is the write
+					n, strArg = "io.WriteString", k
+				} else {
+					return
+				}
+			}
+			if n == "io.WriteString" && strArg < 0 {
+				strArg = 1
+			}
+			if plainWriteHelper(wf) >= 0 {
 				return
 			}
 			if !allowed(n) {
@@ -290,7 +302,7 @@ func runT2(p *an.Prog, r *an.Result) {
 			}
 			// what is written is the formatted value itself
 			if n == "io.WriteString" {
-				for _, o := range an.Origins(ci.Common().Args[1], step) {
+				for _, o := range an.Origins(ci.Common().Args[strArg], step) {
 					if c := an.CallOf(o); c == nil || (an.CallName(c) != "fmt.Sprint" && an.CallName(c) != "(time.Time).Format") {
 						okAll = false
 						r.Bad(an.FuncName(wf), "writes something other than the formatted value", ci.Pos(), "the string written must be the direct result of fmt.Sprint / Format")
@@ -699,9 +711,10 @@ func runT4(p *an.Prog, r *an.Result) {
 			wantLeft := strings.HasSuffix(n, "TrimLeft")
 			good := false
 			for _, g := range an.GuardsAtInstr(ci) {
-				if b, ok := g.Cond.(*ssa.BinOp); ok && b.Op == token.EQL && strings.HasSuffix(describe(p, b.X), ".TrimDirection") {
+				if b, ok := g.Cond.(*ssa.BinOp); ok && (b.Op == token.EQL || b.Op == token.NEQ) && strings.HasSuffix(describe(p, b.X), ".TrimDirection") {
 					if c, ok := an.ConstInt(b.Y); ok {
-						if (c == left && g.True == wantLeft) || (c == right && g.True != wantLeft) {
+						isEq := g.True == (b.Op == token.EQL) // the direction equals c on this path
+						if (c == left && isEq == wantLeft) || (c == right && isEq != wantLeft) {
 							good = true
 						}
 					}
@@ -1644,13 +1657,40 @@ func runT9(p *an.Prog, r *an.Result) {
 		return
 	}
 	bw := callsNamed(w, "(*bytes.Buffer).Write")
+	bwArg := map[*ssa.Call]ssa.Value{}
+	for _, one := range bw {
+		bwArg[one] = one.Call.Args[1]
+	}
+	// or through a helper of the writer that does nothing but append its parameter to the buffer
+	an.EachInstr(w, func(in ssa.Instruction) {
+		c, ok := in.(*ssa.Call)
+		if !ok {
+			return
+		}
+		callee := c.Call.StaticCallee()
+		if callee == nil || !p.InModule(callee) || callee.Pkg != w.Pkg || callee.Blocks == nil || len(callee.Params) != len(c.Call.Args) {
+			return
+		}
+		inner := callsNamed(callee, "(*bytes.Buffer).Write")
+		if len(inner) != 1 {
+			return
+		}
+		if par, ok := inner[0].Call.Args[1].(*ssa.Parameter); ok {
+			for k, pp := range callee.Params {
+				if pp == par {
+					bw = append(bw, c)
+					bwArg[c] = c.Call.Args[k]
+				}
+			}
+		}
+	})
 	if len(bw) == 0 {
 		r.Bad(an.FuncName(w), "buffer writes", an.FuncPos(w), "no buf.Write found: Write must append its argument to the buffer")
 	} else {
 		good := true
 		var origins []ssa.Value
 		for _, one := range bw {
-			origins = append(origins, an.Origins(one.Call.Args[1], an.StepValue)...)
+			origins = append(origins, an.Origins(bwArg[one], an.StepValue)...)
 		}
 		dominatedByWrite := func(in ssa.Instruction) bool {
 			for _, one := range bw {
@@ -2390,4 +2430,51 @@ func runT11(p *an.Prog, r *an.Result) {
 		}
 	}
 	r.Floor("scanner input origins", 2)
+}
+
+// plainWriteHelper: fn does nothing but io.WriteString(<its writer parameter>, <its string parameter>) and
+// return the error; the result is the index of the string parameter, or -1.
+func plainWriteHelper(fn *ssa.Function) int {
+	if fn == nil || fn.Blocks == nil || len(fn.Blocks) != 1 {
+		return -1
+	}
+	calls := allCalls(fn)
+	if len(calls) != 1 || an.CallName(calls[0].Common()) != "io.WriteString" {
+		return -1
+	}
+	args := calls[0].Common().Args
+	wp, okW := args[0].(*ssa.Parameter)
+	sp, okS := args[1].(*ssa.Parameter)
+	if !okW || !okS || wp.Parent() != fn || sp.Parent() != fn {
+		return -1
+	}
+	for k, par := range fn.Params {
+		if par == sp {
+			return k
+		}
+	}
+	return -1
+}
+
+type stringWrite struct {
+	call ssa.CallInstruction
+	arg  ssa.Value
+}
+
+// plainStringWrites: the calls of fn that write a string as it is: io.WriteString, or a plain write helper.
+func plainStringWrites(p *an.Prog, fn *ssa.Function) []stringWrite {
+	var out []stringWrite
+	an.EachCall(fn, func(ci ssa.CallInstruction) {
+		c := ci.Common()
+		if an.CallName(c) == "io.WriteString" {
+			out = append(out, stringWrite{ci, c.Args[1]})
+			return
+		}
+		if callee := c.StaticCallee(); callee != nil && p.InModule(callee) {
+			if k := plainWriteHelper(callee); k >= 0 && k < len(c.Args) {
+				out = append(out, stringWrite{ci, c.Args[k]})
+			}
+		}
+	})
+	return out
 }
